@@ -379,6 +379,14 @@ def run(ctx):
     add("synthetic:encoded-header-1cycle", seal(b"", rec(0, 18)), None, seq=["getnames"])
     add("synthetic:encoded-header-2cycle", seal(rec(18, 18), rec(0, 18)), None, seq=["getnames"])
     add("synthetic:encoded-header-nested3", seal(rec(18, 18) + rec(36, 18) + b"\x01\x00" + bytes(16), rec(0, 18)), None, seq=["getnames"])
+    # a packed stream declared far larger than the file, WITH a pack CRC: test() has something to verify and must
+    # notice the end of the file instead of counting the declared size down block by block
+    for exp in (40, 63):
+        big = b"\xff" + struct.pack("<Q", 2 ** exp - 1 if exp == 63 else 2 ** exp)
+        hdr = (b"\x01\x04\x06\x00\x01\x09" + big + b"\x0a\x01\x11\x22\x33\x44\x00" +
+               b"\x07\x0b\x01\x00\x01\x01\x00\x0c\x05\x00\x00" +
+               b"\x05\x01\x11\x05\x00\x61\x00\x00\x00\x00\x00")
+        add("synthetic:packsize-2^%d-with-packcrc" % exp, seal(b"hello", hdr), None, seq=["test"])
     # degenerate inputs
     for blob in (b"", b"7z", b"7z\xbc\xaf\x27\x1c", b"7z\xbc\xaf\x27\x1c\x00\x04" + bytes(24), seal(b"", b""), seal(b"", b"\x01"), seal(b"", b"\x17"),
                  seal(b"", b"\x01\x00"), seal(b"", b"\x01\x05"), seal(b"", b"\x01\x04\x06")):
